@@ -59,6 +59,11 @@ func runC11(res *lib.Result, tier string, seed int64, args []string) error {
 	defer os.RemoveAll(dir)
 	root := lib.NewRng(uint64(seed))
 	for pi, src := range scopePrograms(root, "C11", nProg) {
+		if pi%3 == 1 {
+			// a table with methods that use the implicit self: references of the table list `self` (it stands for
+			// the table), a rename of the table must not rewrite it
+			src += "local mt = {}\nfunction mt:m1(p)\n  return self, p, mt\nend\nfunction mt.m2(q)\n  return mt:m1(q)\nend\nprint(mt, mt.m2)\n"
+		}
 		occs, sess, err := scopeProgram(drv, dir, src)
 		if err != nil {
 			return err
@@ -68,6 +73,9 @@ func runC11(res *lib.Result, tier string, seed int64, args []string) error {
 		for _, o := range occs {
 			if o.kind != "D" && !r.Chance(1, 4) {
 				continue
+			}
+			if o.name == "self" {
+				continue // the implicit parameter: the server resolves it to the table the method belongs to (documented)
 			}
 			newName := freshLike(o.name, src)
 			if newName == "" {
